@@ -27,6 +27,8 @@ inductive Op
   | srcLen (m : ModId)
   | errno (e : Nat)
   | ret (b : Bool)
+  | foreign (hasCtx : Bool) (op : Op)   -- `op` issued by another thread (holding another context, or none)
+  | xtell (m : ModId) (name : String) (pill : Bool)  -- tell / poison pill addressed to a RUNNING module `name` of another thread's context
 
 structure Frame where
   k : Bool → Prog Int
@@ -83,6 +85,40 @@ def apiProg (c : Cfg) : Op → Prog Int
   | .srcLen m => apiSrcLen m
   | .errno _ => pure 0
   | .ret _ => pure 0
+  | .foreign _ _ => pure 0
+  | .xtell _ _ _ => pure 0
+
+/-- what a thread that is not the owner of this context sees when it is handed one of its modules: the same
+objects, but `m_ctx()` yields the caller's own context (a different object, `hasCtx`) or nothing -/
+def foreignView (s : St) (hasCtx : Bool) : St :=
+  { s with ctx := if hasCtx then some { id := s.nextCtx } else none }
+
+/-- a call made from a foreign thread: its return code goes to the trace; if the program changed anything the owner
+could observe, or reached a callback, that is recorded (C14 proves it never happens for module operations; the
+correspondence compares the owner's state dump before and after on the real library) -/
+def foreignStep (c : Cfg) (hc : Bool) (op : Op) : Cfg :=
+  let view := foreignView c.st hc
+  match runP (apiProg c op) view with
+  | (s', .inl code) =>
+    let same := s'.mods == view.mods && s'.srcs == view.srcs && s'.holders == view.holders && s'.out == view.out
+    { c with st := (if same then c.st else c.st.emit (.note "FOREIGN-CALL-HAD-AN-EFFECT")).emit (.ret code) }
+  | (_, .inr _) => { c with st := (c.st.emit (.note "FOREIGN-CALL-RAN-A-CALLBACK")).emit (.ret 0) }
+
+/-- a module of another thread's context, as this thread sees it when handed its pointer: a RUNNING module object
+whose `ctx` is a different context object -/
+def alienMod (s : St) (name : String) : Mod :=
+  { name := name, slot := 0, ctxId := s.nextCtx, state := .running, inCtx := false, pipe := some [] }
+
+/-- `m_mod_ps_tell(m, alien, …)` / `m_mod_ps_poisonpill(m, alien)`: the real programs run on the state extended by
+the alien module object; whatever they return goes to the trace, any effect on the alien or on anybody else is recorded -/
+def xtellStep (c : Cfg) (m : ModId) (name : String) (pill : Bool) : Cfg :=
+  let r := c.st.mods.length
+  let view : St := { c.st with mods := c.st.mods ++ [alienMod c.st name] }
+  match runP (if pill then apiPill m r else apiTell m r 0 false) view with
+  | (s', .inl code) =>
+    let same := s'.mods == view.mods && s'.srcs == view.srcs && s'.holders == view.holders && s'.out == view.out
+    { c with st := (if same then c.st else c.st.emit (.note "CROSS-CONTEXT-SEND-HAD-AN-EFFECT")).emit (.ret code) }
+  | (_, .inr _) => { c with st := (c.st.emit (.note "CROSS-CONTEXT-SEND-RAN-A-CALLBACK")).emit (.ret 0) }
 
 def step (c : Cfg) : Op → Cfg
   | .ret b =>
@@ -90,6 +126,8 @@ def step (c : Cfg) : Op → Cfg
     | [] => c                                   -- a `ret` at top level is ignored
     | f :: rest => exec { c with stack := rest } f.anchor (f.k b)
   | .errno e => { c with st := { c.st with errno := e } }
+  | .foreign hc op => foreignStep c hc op
+  | .xtell m name pill => xtellStep c m name pill
   | op => exec c c.st (apiProg c op)
 
 def run (c : Cfg) (ops : List Op) : Cfg := ops.foldl step c
